@@ -727,13 +727,11 @@ class Exec:
         finally:
             self.frames.pop()
 
-    def call_merged(self, f, args, kwargs=None):
-        """all paths of a nested call merged into one value (ite over the path conditions);
-        a raising path makes the caller branch on its condition."""
+    def nested_paths(self, f, args, kwargs=None):
+        """all paths of a nested call: list of (kind, value, path-condition suffix, exec)"""
         sub_trail = []
         results = []
         n0 = len(self.pc)
-        writes0 = self.heap_writes
         while True:
             ex = Exec(self.eng, sub_trail, pc0=list(self.pc))
             ex.frames = list(self.frames)
@@ -754,6 +752,12 @@ class Exec:
                 break
             if len(results) > 64:
                 raise OutOfSubset("too many paths in nested call")
+        return results
+
+    def call_merged(self, f, args, kwargs=None):
+        """all paths of a nested call merged into one value (ite over the path conditions);
+        a raising path makes the caller branch on its condition."""
+        results = self.nested_paths(f, args, kwargs)
         if len(results) > 1 and any(r[3].heap_writes for r in results):
             raise OutOfSubset("nested call with several paths writes to the heap")
         for kind, v, pcs, ex in results:
